@@ -211,6 +211,18 @@ class C10(Check):
                 start = rng.choice([0, 0xF180, 0xFFFF - width + 1, rng.randrange(0, 0xFFFF - width)])
                 end = min(0xFFFF, start + width - 1)
             plan["start"], plan["end"] = start, end
+            if plan.get("skip_expr"):
+                # identifier skips that lie inside (or far outside) the scanned window, several elements per session in any order
+                rngs = rng_for(seed, "C10-idskip", index)
+                new_elems = []
+                for e_ in plan["skip_expr"]:
+                    if ":" in e_:
+                        lo_ = start + rngs.randrange(0, max(1, end - start))
+                        inner_ = rngs.choice([f"{lo_:#x}-{min(end, lo_ + 3):#x}", f"{lo_:#x}", "0xf100-0xf1ff", f"{start:#x}-{min(end, start + 3):#x}", f"{max(start, end - 2):#x}-{end:#x}"])
+                        new_elems.append(f"{e_.split(':')[0]}:{inner_}")
+                    else:
+                        new_elems.append(e_)
+                plan["skip_expr"] = new_elems
             if plan["skip"] and rng.random() < 0.7 and plan["sessions"]:
                 s = rng.choice(plan["sessions"])
                 ids = sorted(rng.sample(range(start, min(end, start + 400) + 1), min(5, min(end, start + 400) - start + 1)))
